@@ -168,6 +168,21 @@ func ApplyEdit(w *WS, s Step) string {
 		w.Files[full(nn)] = w.Files[full(rel)]
 		delete(w.Files, full(rel))
 		return "rename " + full(rel) + " -> " + full(nn)
+	case "toggle-execbit":
+		if len(t.OutFiles) == 0 {
+			return ""
+		}
+		t.ExecBit = !t.ExecBit
+		return fmt.Sprintf("execbit %s=%v", t.Label(), t.ExecBit)
+	case "swap-output-roles":
+		for k := 0; k < len(w.Targets); k++ {
+			cand := w.target(s.T + k)
+			if len(cand.OutFiles) >= 2 {
+				cand.SwapOuts = !cand.SwapOuts
+				return fmt.Sprintf("swap-outputs %s=%v", cand.Label(), cand.SwapOuts)
+			}
+		}
+		return ""
 	case "bump-nonce":
 		t.Nonce++
 		return "nonce " + t.Label()
